@@ -82,7 +82,7 @@ func TestC14(t *testing.T) {
 	r := rec("C14")
 	rapid.Check(t, func(t *rapid.T) {
 		kind := gobKinds[gen.Uniform(t, "kind", len(gobKinds))]
-		o := gen.VocabOpts{Hostile: true, Refs: true, EmptySecurity: true}
+		o := gen.VocabOpts{Hostile: true, Refs: true, EmptySecurity: true, RootRefs: true}
 		if rapid.Bool().Draw(t, "steer-around-K3-K4") {
 			// exclude the known losses by construction so that other losses are not masked
 			o.NoZeroValid, o.NoEmptyInFree = true, true
